@@ -102,6 +102,8 @@ func main() {
 	}
 	// ---- E
 	runEntryStream(o, rng.Split(), nE)
+	// ---- H
+	runSeqStream(o, rng.Split(), o.N/4)
 	fmt.Println("done")
 }
 
